@@ -16,6 +16,9 @@ pub struct ProcResult {
     /// (case index, how the worker died)
     pub crashes: Vec<(usize, String)>,
     pub hangs: Vec<usize>,
+    /// cases that did not answer within the per-case cap in a shared worker but did answer when
+    /// re-run alone with a twelve times longer cap (a loaded machine, not a hang)
+    pub slow: Vec<usize>,
     pub workers_spawned: usize,
 }
 
@@ -86,7 +89,16 @@ pub fn run_sharded(cfg: &ProcCfg) -> (ProcResult, usize) {
                             }
                             Err(mpsc::RecvTimeoutError::Timeout) => {
                                 let _ = child.kill();
-                                local.hangs.push(cur);
+                                // wall time is the only oracle for a hang, so a suspect is
+                                // confirmed alone (own worker, 12 x the cap) before it counts
+                                match run_alone(cfg, cur) {
+                                    Some(payload) => {
+                                        local.lines.push((cur, payload));
+                                        local.slow.push(cur);
+                                    }
+                                    None => local.hangs.push(cur),
+                                }
+                                local.workers_spawned += 1;
                                 cur += 1;
                                 break;
                             }
@@ -110,12 +122,58 @@ pub fn run_sharded(cfg: &ProcCfg) -> (ProcResult, usize) {
                 t.lines.extend(local.lines);
                 t.crashes.extend(local.crashes);
                 t.hangs.extend(local.hangs);
+                t.slow.extend(local.slow);
                 t.workers_spawned += local.workers_spawned;
             });
         }
     });
     let d = *done.lock().unwrap();
     (total.into_inner().unwrap(), d)
+}
+
+/// one case in a worker of its own, waited for 12 x the per-case cap; None = no answer (or crash)
+fn run_alone(cfg: &ProcCfg, idx: usize) -> Option<String> {
+    let mut cmd = Command::new(cfg.bin);
+    cmd.args(&cfg.args).arg("--from").arg(idx.to_string()).arg("--to").arg((idx + 1).to_string());
+    for (k, v) in &cfg.env {
+        cmd.env(k, v);
+    }
+    let mut child = cmd.stdout(Stdio::piped()).stderr(Stdio::null()).spawn().ok()?;
+    let out = child.stdout.take().unwrap();
+    let (tx, rx) = mpsc::channel::<String>();
+    let reader = std::thread::spawn(move || {
+        for line in BufReader::new(out).lines().map_while(Result::ok) {
+            if tx.send(line).is_err() {
+                break;
+            }
+        }
+    });
+    let deadline = std::time::Instant::now() + cfg.per_case * 12;
+    let mut answer = None;
+    loop {
+        let left = deadline.saturating_duration_since(std::time::Instant::now());
+        if left.is_zero() {
+            break;
+        }
+        match rx.recv_timeout(left) {
+            Ok(line) => {
+                if let Some((i, payload)) = line.split_once('\t')
+                    && i.parse::<usize>() == Ok(idx)
+                {
+                    answer = Some(payload.to_string());
+                    break;
+                }
+                if line == "DONE" {
+                    break;
+                }
+            }
+            Err(_) => break,
+        }
+    }
+    let _ = child.kill();
+    let _ = child.wait();
+    let _ = reader.join();
+    answer
 }
 
 /// helper for workers: print one case line and flush
